@@ -56,4 +56,21 @@ lines that precede it in prettified output, then the fields joined by tabs -/
 def serialize (items : List (List (List Nat) × List (List Nat))) : List (List Nat) :=
   items.flatMap fun it => it.1 ++ [join it.2]
 
+/-! ### lines of an `<msa>` block: `id`, the taxon name padded with dots, the alignment cells -/
+
+def dot : Nat := 46
+
+/-- `x.rstrip('.')` -/
+def rstripDots (f : List Nat) : List Nat := (f.reverse.dropWhile (· == dot)).reverse
+
+/-- `name.ljust(width, '.')` -/
+def padDots (w : Nat) (f : List Nat) : List Nat := f ++ List.replicate (w - f.length) dot
+
+/-- `'{0}\t{1}'.format(id, taxon.ljust(w, '.')) + '\t' + '\t'.join(cells)` -/
+def msaLine (id : List Nat) (w : Nat) (taxon : List Nat) (cells : List (List Nat)) : List Nat :=
+  join (id :: padDots w taxon :: cells)
+
+/-- `[x.strip().rstrip('.') for x in l.split('\t')]` -/
+def parseMsaLine (l : List Nat) : List (List Nat) := (split l).map fun f => rstripDots (strip f)
+
 end Verif.Line
